@@ -407,6 +407,18 @@ theorem C06_receipts_progress_waiter {ids s} {i : Nat} (hw : s.wpc i = .waiting)
   · intro h; simp [rstep, hw, h]
   · intro h; simp [rstep, hw, h]
 
+/-- the handler never waits for the sender's transmission: whatever the senders are doing — also
+while one of them is in the middle of writing its message (`sending`) — a receipt can be looked up
+as soon as the handler is free -/
+theorem C06_receipts_handler_not_blocked_by_sender {ids s} (id : Nat) (hh : s.hpc = none) :
+    (rstep ids s (.receipt id)).isSome := by
+  simp only [rstep, hh]; split <;> simp
+
+/-- the lock discipline that makes the model's handler step unconditional, regenerated from
+`receipts/receipts.go`: `SendMessageElement` makes no Session send while it holds `h.m` (the
+mutex `HandleMessage` needs for every `<received/>`) -/
+theorem C06_receipts_lock_discipline : Generated.C06.receiptsSendsWhileLocked = some false := by decide
+
 /-- one outcome per call -/
 theorem C06_receipts_outcome_stable {ids s a s'} {i : Nat} {ok : Bool}
     (hs : rstep ids s a = some s') (h : s.wpc i = .done ok) : s'.wpc i = .done ok := by
